@@ -34,6 +34,19 @@ PROP = "C13"
 HEADER = "prop_autohash 1"
 
 
+def run_cases(binary, cases, wd, timeout=900):
+    """R.run_cases, retried while the shared driver binary is being relinked
+    by a concurrent build (exec fails with EACCES/ETXTBSY/ENOENT)"""
+    import time
+    for attempt in range(60):
+        try:
+            return R.run_cases(binary, cases, wd, timeout=timeout)
+        except OSError:
+            if attempt == 59:
+                raise
+            time.sleep(1.0)
+
+
 # ----------------------------------------------------------------------
 # steps, rendering
 # ----------------------------------------------------------------------
@@ -172,8 +185,8 @@ def shape(op, arg):
             return k
         if rest == b"#":
             return k + "#"
-        return k + "+junk"
-    return k + ("+junk" if rest else "")
+        return "junk-after-descriptor"
+    return "junk-after-descriptor" if rest else k
 
 
 def obs_ret(op, ev):
@@ -249,32 +262,33 @@ def judge_step(op, var, outs, ev, hev):
                       h, outs[c2[0]][2].hash, M.show(outs[c2[0]][2].doc)))
 
 
-def judge_seq(model, steps, meta, res, off, part, tag):
-    """walk one sequence.  Returns None when everything matched, else
-    (index of the failing step, key, text)."""
-    st = {}
+def judge_seq(model, steps, meta, res, off, part, st=None):
+    """walk one sequence.  `st` (root name -> State) carries roots that were
+    created earlier in the same case.  Returns None when everything matched,
+    else (index of the failing step, key, text)."""
+    if st is None:
+        st = {}
+    cnt = part["counters"]
     for idx, (op, var, arg) in enumerate(steps):
         r, h = meta[idx]
         ev = res.ev(off + r)
         if op == "new":
             st[var] = model.state(None)
             if ev is None:
-                part["counters"]["steps_not_executed"] = \
-                    part["counters"].get("steps_not_executed", 0) + \
-                    len(steps) - idx
+                cnt["steps_not_executed"] = \
+                    cnt.get("steps_not_executed", 0) + len(steps) - idx
                 return None
             continue
         hev = res.ev(off + h) if h is not None else None
-        if ev is None or "skipped" in ev or (h is not None and hev is None):
-            part["counters"]["steps_not_executed"] = \
-                part["counters"].get("steps_not_executed", 0) + \
-                len(steps) - idx
+        if ev is None or "skipped" in ev or (h is not None and hev is None) \
+                or var not in st or (op == "copy" and arg not in st):
+            cnt["steps_not_executed"] = \
+                cnt.get("steps_not_executed", 0) + len(steps) - idx
             return None
         cur = st[var]
         outs = model.step(cur, op, st[arg] if op == "copy" else arg)
         if outs is M.UNSPECIFIED:
-            part["counters"]["unspecified_ops"] = \
-                part["counters"].get("unspecified_ops", 0) + 1
+            cnt["unspecified_ops"] = cnt.get("unspecified_ops", 0) + 1
             return None
         i, bad = judge_step(op, var, outs, ev, hev)
         part["evaluations"] += 1
@@ -286,11 +300,9 @@ def judge_seq(model, steps, meta, res, off, part, tag):
         if bad is not None:
             what, detail = bad
             if what == "tree":
-                allfail = all(o[0] == M.FAILRET.get(op) and o[2] is cur
-                              for o in outs)
                 if op not in M.MODIFYING:
                     what = "query-changed-tree"
-                elif allfail and all(o[2] is cur for o in outs):
+                elif all(o[2] is cur and o[0] == M.FAILRET[op] for o in outs):
                     what = "failed-call-changed-tree"
                 else:
                     what = "wrong-tree"
@@ -307,7 +319,7 @@ def judge_seq(model, steps, meta, res, off, part, tag):
 def run_one(binary, wd, steps, with_dumps=True):
     lines, meta = render(steps, with_dumps)
     text = HEADER + "\n" + "\n".join(lines) + "\n"
-    res = R.run_cases(binary, [("w", text)], wd, timeout=120)["w"]
+    res = run_cases(binary, [("w", text)], wd, timeout=120)["w"]
     return text, lines, meta, res
 
 
@@ -315,16 +327,15 @@ def failing_key(binary, wd, steps):
     """run `steps` alone; -> (key, idx) of the first model mismatch or None"""
     lines, meta = render(steps, False)
     text = HEADER + "\n" + "\n".join(lines) + "\n"
-    res = R.run_cases(binary, [("m", text)], wd, timeout=120)["m"]
+    res = run_cases(binary, [("m", text)], wd, timeout=120)["m"]
     part = dict(evaluations=0, counters={}, distinct=set(), _distinct_on=False)
-    r = judge_seq(Model(), steps, meta, res, 1, part, "m")
-    return r
+    return judge_seq(Model(), steps, meta, res, 1, part)
 
 
 def shrink(binary, wd, steps, key):
     """ddmin-like reduction of a long history: keep the last step, drop
     blocks of earlier steps while the same violation key fires at the end"""
-    if len(steps) <= 10:
+    if len(steps) <= 2:
         return steps
     cur = list(steps)
     g = max(1, (len(cur) - 1) // 2)
@@ -348,13 +359,12 @@ def shrink(binary, wd, steps, key):
             lines, meta = render(c, False)
             cases.append(("s%d" % ci, HEADER + "\n" + "\n".join(lines) + "\n"))
             metas.append(meta)
-        results = R.run_cases(binary, cases, wd, timeout=300)
+        results = run_cases(binary, cases, wd, timeout=300)
         took = False
         for ci, c in enumerate(cands):
             part = dict(evaluations=0, counters={}, distinct=set(),
                         _distinct_on=False)
-            r = judge_seq(Model(), c, metas[ci], results["s%d" % ci], 1, part,
-                          "s")
+            r = judge_seq(Model(), c, metas[ci], results["s%d" % ci], 1, part)
             if r is not None and r[1] == key and r[0] == len(c) - 1:
                 cur = c
                 took = True
@@ -418,12 +428,14 @@ def make_violation(binary, wd, steps, idx, key, detail):
     return dict(key=key, desc="\n".join(desc)[:6000], script=text)
 
 
-def seq_violations(res, text, spans, binary, wd, seen):
+def seq_violations(res, text, spans, pre_end, binary, wd, seen):
     """standard violations of a multi-sequence case, with the witness cut down
-    to the sequence that produced the report"""
+    to the sequence that produced the report (+ the case's prefix lines
+    2..pre_end that create shared roots)"""
     v, inc = R.standard_violations(res, text, PROP)
     out = []
     lines = text.split("\n")
+    pre = lines[:pre_end]           # header + shared prefix
     for viol in v:
         if viol["key"] in seen:
             viol = dict(viol)
@@ -431,7 +443,6 @@ def seq_violations(res, text, spans, binary, wd, seen):
             out.append(viol)
             continue
         seen.add(viol["key"])
-        # find the report's line
         ln = None
         for r in res.reports:
             if r["key"] == viol["key"] and r.get("i") is not None:
@@ -441,19 +452,19 @@ def seq_violations(res, text, spans, binary, wd, seen):
         if ln is not None:
             for a, b in spans:
                 if a <= ln <= b:
-                    sub = [(a, b)]
+                    sub = (a, b)
                     break
         elif viol["key"].startswith("lsan:") and len(spans) > 1:
-            sub = bisect_leak(binary, wd, lines, spans, viol["key"])
+            sub = bisect_leak(binary, wd, lines, pre, spans, viol["key"])
         if sub:
-            a, b = sub[0]
+            a, b = sub
             viol = dict(viol)
-            viol["script"] = HEADER + "\n" + "\n".join(lines[a - 1:b]) + "\n"
+            viol["script"] = "\n".join(pre + lines[a - 1:b]) + "\n"
         out.append(viol)
     return out, inc
 
 
-def bisect_leak(binary, wd, lines, spans, key):
+def bisect_leak(binary, wd, lines, pre, spans, key):
     cur = list(spans)
     for _ in range(24):
         if len(cur) <= 1:
@@ -462,10 +473,10 @@ def bisect_leak(binary, wd, lines, spans, key):
         parts = [cur[:half], cur[half:]]
         cases = []
         for pi, pp in enumerate(parts):
-            t = HEADER + "\n" + "\n".join(
-                "\n".join(lines[a - 1:b]) for a, b in pp) + "\n"
+            t = "\n".join(pre + [ln for a, b in pp
+                                  for ln in lines[a - 1:b]]) + "\n"
             cases.append(("b%d" % pi, t))
-        results = R.run_cases(binary, cases, wd, timeout=300)
+        results = run_cases(binary, cases, wd, timeout=300)
         nxt = None
         for pi, pp in enumerate(parts):
             if any(r["key"] == key for r in results["b%d" % pi].reports):
@@ -474,7 +485,7 @@ def bisect_leak(binary, wd, lines, spans, key):
         if nxt is None:
             break
         cur = nxt
-    return cur[:1] if len(cur) == 1 else None
+    return cur[0] if len(cur) == 1 else None
 
 
 def new_part():
@@ -487,17 +498,21 @@ def bump(part, k, n=1):
 
 
 def run_sequences(binary, wd, seqs, part, model=None, per_case=400,
-                  sample_tag=None, seen=None):
-    """seqs: list of step lists.  Packs them into cases, runs, judges."""
+                  sample_tag=None, seen=None, prefix=None):
+    """seqs: list of step lists.  Packs them into cases (each starting with
+    the steps of `prefix`, which create roots shared by the sequences), runs
+    and judges them.  model=None: a fresh model per sequence."""
     if seen is None:
         seen = set()
-    if model is None:
-        model = Model()
+    prefix = prefix or []
     cases = []
     info = []
     for c0 in range(0, len(seqs), per_case):
         group = seqs[c0:c0 + per_case]
         lines = [HEADER]
+        pl, pmeta = render(prefix, False)
+        lines += pl
+        pre_end = len(lines)
         spans = []
         metas = []
         for steps in group:
@@ -509,16 +524,27 @@ def run_sequences(binary, wd, seqs, part, model=None, per_case=400,
         text = "\n".join(lines) + "\n"
         cid = "c%d" % len(cases)
         cases.append((cid, text))
-        info.append((group, spans, metas))
-    results = R.run_cases(binary, cases, wd, timeout=900)
-    for (cid, text), (group, spans, metas) in zip(cases, info):
+        info.append((group, spans, metas, pmeta, pre_end))
+    results = run_cases(binary, cases, wd, timeout=900)
+    for (cid, text), (group, spans, metas, pmeta, pre_end) in zip(cases, info):
         res = results[cid]
-        v, inc = seq_violations(res, text, spans, binary, wd, seen)
+        v, inc = seq_violations(res, text, spans, pre_end, binary, wd, seen)
         part["violations"] += v
         part["inconclusive"] += inc
+        pmodel = model or Model()
+        env = {}
+        todo = []
+        if prefix:
+            todo.append((prefix, 1, pmeta, True))
         for steps, (off, meta) in zip(group, metas):
-            bump(part, "sequences")
-            r = judge_seq(model, steps, meta, res, off, part, cid)
+            todo.append((steps, off, meta, False))
+        for steps, off, meta, ispre in todo:
+            m = model or (pmodel if ispre else Model())
+            st = env if ispre else dict(
+                (k, m.state(s.doc)) for k, s in env.items())
+            if not ispre:
+                bump(part, "sequences")
+            r = judge_seq(m, steps, meta, res, off, part, st)
             if r is not None:
                 idx, key, detail = r
                 bump(part, "mismatching_sequences")
@@ -527,15 +553,25 @@ def run_sequences(binary, wd, seqs, part, model=None, per_case=400,
                                                    script=None))
                 else:
                     seen.add(key)
+                    full = steps if ispre else needed_prefix(prefix, steps) \
+                        + list(steps)
                     part["violations"].append(make_violation(
-                        binary, wd, steps, idx, key, detail))
-            elif sample_tag and len(part["samples"]) < 1:
+                        binary, wd, full, len(full) - len(steps) + idx, key,
+                        detail))
+            elif sample_tag and not ispre and len(part["samples"]) < 1:
                 last = [s for s in steps if s[0] != "new"][-3:]
                 part["samples"].append(dict(
                     part=sample_tag, steps=len(steps),
                     last_ops=["%s %s" % (fn_name(o, v_), a if isinstance(
                         a, str) else a.decode("latin-1"))
                         for o, v_, a in last]))
+
+
+def needed_prefix(prefix, steps):
+    """the prefix steps of the roots that `steps` copies from"""
+    made = {s[1] for s in steps if s[0] == "new"}
+    used = {s[2] for s in steps if s[0] == "copy"} - made
+    return [s for s in prefix if s[1] in used]
 
 
 # ----------------------------------------------------------------------
@@ -582,6 +618,7 @@ ALPHABET = [
     # --- copy
     ("copy", "srca"),
     ("copy", "srcb"),
+    ("copy", "@self"),
     # --- queries
     ("type", b"a"),
     ("type", b"[1]"),
@@ -609,7 +646,7 @@ ALPHABET = [
 ]
 # thorough explores depth 4 over the first N_THOROUGH letters after this
 # permutation (most informative first); quick samples from all of them
-ALPHA_THOROUGH = 40
+ALPHA_THOROUGH = 36
 
 
 def alphabet_for(tier):
@@ -618,21 +655,26 @@ def alphabet_for(tier):
     # drop the letters whose effect is covered by a sibling letter
     drop = {("set", b"[2][0+]#"), ("set_subtree", b"[1].k."),
             ("delete", b"[2]"), ("type", b"[1]"), ("keys", b"[1]"),
-            ("get", b"[0]"), ("count", b"[x]"), ("delete", b"[0]x")}
+            ("get", b"[0]"), ("count", b"[x]"), ("delete", b"[0]x"),
+            ("set", b"a.#"), ("delete", b"s"), ("count", b"a[0]"),
+            ("get", b""), ("type", b"a..b")}
     idx = [i for i, a in enumerate(ALPHABET) if a not in drop]
     return idx[:ALPHA_THOROUGH] if len(idx) > ALPHA_THOROUGH else idx
 
 
-def prefix_steps(var, start_idx):
-    steps = [("new", "srca", None)] + build_steps("srca", SRC_A) + \
-            [("new", "srcb", None)] + build_steps("srcb", SRC_B)
-    return steps
+def prefix_steps():
+    return [("new", "srca", None)] + build_steps("srca", SRC_A) + \
+           [("new", "srcb", None)] + build_steps("srcb", SRC_B)
 
 
 def seq_for(var, start_idx, letters):
+    # (through vnacal_property_* a copy onto itself is not expressible: the
+    # "@self" letter copies from srca there)
     steps = [("new", var, None)] + build_steps(var, START[start_idx])
     for li in letters:
         op, arg = ALPHABET[li]
+        if arg == "@self":
+            arg = "srca" if isvc(var) else var
         steps.append((op, var, arg))
     return steps
 
@@ -640,39 +682,38 @@ def seq_for(var, start_idx, letters):
 def explore_chunk(chunk_id, payload):
     seed, tier, binary, workroot, units, var, nsample = payload
     part = new_part()
-    wd = os.path.join(workroot, "a%d" % chunk_id)
+    wd = os.path.join(workroot, "a%s%d" % (var, chunk_id))
     model = Model()
     seen = set()
     alpha = alphabet_for(tier)
-    rng = random.Random("%d/A/%d" % (seed, chunk_id))
+    rng = random.Random("%d/A/%s/%d" % (seed, var, chunk_id))
+    prefix = prefix_steps()
     for start_idx, o1 in units:
-        seqs = []
+        groups = []
         for o2 in alpha:
             if nsample is None:
                 tails = [(o3, o4) for o3 in alpha for o4 in alpha]
             else:
                 tails = [(rng.choice(alpha), rng.choice(alpha))
                          for _ in range(nsample)]
-            for o3, o4 in tails:
-                seqs.append(seq_for(var, start_idx, (o1, o2, o3, o4)))
-        # the copy sources live in the same case: prepend their construction
-        # to every case through a pseudo sequence
-        B = 60000 if nsample is None else 4000
-        for c0 in range(0, len(seqs), B):
-            group = seqs[c0:c0 + B]
-            per_case = 1600
-            packed = []
-            for g0 in range(0, len(group), per_case):
-                packed.append(group[g0:g0 + per_case])
-            allseq = []
-            for pk in packed:
-                allseq.append(prefix_steps(var, start_idx))
-                allseq += pk
-            # one case = source construction + per_case sequences
-            run_sequences(binary, wd, allseq, part, model=model,
-                          per_case=per_case + 1,
-                          sample_tag="A:exhaustive:%s" % var, seen=seen)
-    bump(part, "A_units", len(units))
+            groups.append([seq_for(var, start_idx, (o1, o2, o3, o4))
+                           for o3, o4 in tails])
+        if nsample is None:
+            # one case per (start, o1, o2); a few cases per driver process
+            for g0 in range(0, len(groups), 6):
+                seqs = [s for g in groups[g0:g0 + 6] for s in g]
+                run_sequences(binary, wd, seqs, part, model=model,
+                              per_case=len(groups[0]),
+                              sample_tag="A:exhaustive:%s" % var, seen=seen,
+                              prefix=prefix)
+        else:
+            # sampled: one case per (start, o1)
+            seqs = [s for g in groups for s in g]
+            run_sequences(binary, wd, seqs, part, model=model,
+                          per_case=len(seqs),
+                          sample_tag="A:exhaustive:%s" % var, seen=seen,
+                          prefix=prefix)
+    bump(part, "A_units_%s" % var, len(units))
     part["maxima"]["A_model_states"] = len(model.states)
     return part
 
@@ -792,7 +833,8 @@ def rand_step(rng, var, doc, other, enable_gs_junk):
         d = render_path(rng, el) + (b"." if rng.random() < 0.25 else b"")
         return ("delete", var, d)
     if r < 0.57 and other is not None:
-        return ("copy", var, other)
+        return ("copy", var, var if (rng.random() < 0.15 and not isvc(var))
+                else other)
     if r < 0.87:
         op = rng.choice(QUERY_OPS)
         if rng.random() < 0.1:
@@ -869,11 +911,9 @@ def history_chunk(chunk_id, payload):
     for i in range(count):
         rng = random.Random("%d/H/%s/%d/%d" % (seed, main, chunk_id, i))
         seqs.append(gen_history(rng, length, main, enable_gs_junk=(i % 8 == 7)))
-    for s in seqs:
-        # a fresh model per history keeps the cache small
-        run_sequences(binary, wd, [s], part, model=Model(), per_case=1,
-                      sample_tag="%s:history:%s" % (
-                          "C" if isvc(main) else "B", main), seen=seen)
+    run_sequences(binary, wd, seqs, part, model=None, per_case=1,
+                  sample_tag="%s:history:%s" % (
+                      "C" if isvc(main) else "B", main), seen=seen)
     bump(part, "histories_%s" % ("vnacal" if isvc(main) else "vnaproperty"),
          count)
     return part
@@ -921,7 +961,7 @@ def matrix_chunk(chunk_id, payload):
                     # a query after the call shows the tree once more
                     steps.append(("type", var, b"."))
                     seqs.append(steps)
-    run_sequences(binary, wd, seqs, part, per_case=1,
+    run_sequences(binary, wd, seqs, part, model=Model(), per_case=1,
                   sample_tag="D:matrix:%s" % var)
     bump(part, "D_cases", len(seqs))
     return part
@@ -933,8 +973,8 @@ def matrix_chunk(chunk_id, payload):
 PIECES = [b".", b"[", b"]", b"{", b"}", b" ", b"  ", b"\\", b"=", b"#", b"+",
           b"-", b"_", b"0", b"9", b"a", b"Z", b"\n", b"\t", b"\r", b"\x01",
           b"\x7f", b'"', b"'", b":", b"~", b"!", b"%", b"%s", b"/", b"*",
-          "é".encode(), " ".encode(), "\u0085".encode(),
-          " ".encode(), "﻿".encode(), "日".encode(),
+          "\u00e9".encode(), "\u00a0".encode(), "\u0085".encode(),
+          "\u2028".encode(), "\ufeff".encode(), "\u65e5".encode(),
           "\U0001f600".encode(), b"key", b"two words", b"x.y", b"[0]", b"{}"]
 
 
@@ -966,7 +1006,7 @@ def quote_chunk(chunk_id, payload):
     for k in keys:
         s.op("vnaproperty_quote_key", R.qs(k))
     t1 = s.text()
-    res = R.run_cases(binary, [("q", t1)], wd, timeout=300)["q"]
+    res = run_cases(binary, [("q", t1)], wd, timeout=300)["q"]
     v, inc = R.standard_violations(res, t1, PROP)
     part["violations"] += v
     part["inconclusive"] += inc
@@ -1017,7 +1057,7 @@ def quote_chunk(chunk_id, payload):
                   ("set_subtree", "p", qb + b"{}"),
                   ("count", "p", qb)]
         seqs.append(steps)
-    run_sequences(binary, wd, seqs, part, per_case=50,
+    run_sequences(binary, wd, seqs, part, model=None, per_case=50,
                   sample_tag=None)
     bump(part, "E_keys", len(keys))
     return part
@@ -1025,10 +1065,15 @@ def quote_chunk(chunk_id, payload):
 
 # ----------------------------------------------------------------------
 def dispatch(chunk_id, payload):
+    import time
     kind = payload[0]
     fn = {"A": explore_chunk, "H": history_chunk, "D": matrix_chunk,
           "E": quote_chunk}[kind]
-    return fn(chunk_id, payload[1:])
+    t0 = time.time()
+    part = fn(chunk_id, payload[1:])
+    part.pop("_distinct_on", None)
+    part["counters"]["cpu_s_part_%s" % kind] = round(time.time() - t0, 2)
+    return part
 
 
 def main():
@@ -1041,7 +1086,7 @@ def main():
     payloads = []
     # A: exploration through vnaproperty_*
     units = [(si, o1) for si in range(len(START)) for o1 in alpha]
-    nsample = max(1, int(24 * sc)) if quick else None
+    nsample = max(1, int(12 * sc)) if quick else None
     per = 2 if quick else 1
     for i in range(0, len(units), per):
         payloads.append(("A", seed, tier, binary, wr, units[i:i + per], "p",
@@ -1052,10 +1097,10 @@ def main():
         payloads.append(("A", seed, "quick", binary, wr, units[i:i + 8], "vc",
                          nvc))
     # B, C: histories
-    nh = max(1, int((6 if quick else 220) * sc))
+    nh = max(1, int((20 if quick else 220) * sc))
     for c in range(16):
         payloads.append(("H", seed, tier, binary, wr, nh, 200, "p"))
-    nhv = max(1, int((3 if quick else 80) * sc))
+    nhv = max(1, int((10 if quick else 80) * sc))
     for c in range(16):
         payloads.append(("H", seed, tier, binary, wr, nhv, 200, "vc"))
     # D: matrix
